@@ -213,4 +213,48 @@ theorem tie_shape_tables :
        "apiext.ResourceHuaweiNPUDVPP=>HuaweiNPUDVPP", "apiext.ResourceFPGA=>FPGA", "apiext.ResourceRDMA=>RDMA"] = true := by
   decide
 
+/-! ### extension 3: the informer transformer and the allocation result in the cycle state (Model/C07Glue.lean) -/
+
+/-- the deprecated → current resource-name table the transformer applies (the harness writes annotations with exactly
+    these names: gpu-core / gpu-memory / gpu-memory-ratio, rdma, fpga; koordinator.sh/gpu is not generated) -/
+theorem tie_deprecated_names :
+    C07.deprecatedDeviceMapper =
+      ["DeprecatedGPUCore=>ResourceGPUCore", "DeprecatedGPUMemory=>ResourceGPUMemory",
+       "DeprecatedGPUMemoryRatio=>ResourceGPUMemoryRatio", "DeprecatedKoordFPGA=>ResourceFPGA",
+       "DeprecatedKoordGPU=>ResourceGPU", "DeprecatedKoordRDMA=>ResourceRDMA"] := by decide
+
+/-- SetupTransformers installs TransformPodFactory() on the pod informer (the function the harness puts in front of the
+    pod handlers) and TransformDevice on the Device informer; the pod transformer list contains the rename -/
+theorem tie_transformer_installed :
+    C07.transformerFactories_table = ["pods=>TransformPodFactory"] ∧
+    C07.transformers_table.contains "devices=>TransformDevice" = true ∧
+    C07.podTransformers_list.contains "TransformDeprecatedDeviceResources" = true := by decide
+
+/-- `transformAnn` is a map over ALL entries: in transformDeviceAllocations the helper call sits inside two nested loops
+    and is executed unconditionally there (not in an if body, not the right operand of && / ||); the helper itself
+    tries every pair of the mapper (one loop, unconditionally).  Written so that `changed := helper(…); transformed =
+    transformed || changed` passes and `transformed = transformed || helper(…)` does not. -/
+theorem tie_transform_every_entry :
+    C07.transformAlloc_helperCalls = 1 ∧ C07.transformAlloc_loopDepth = 2 ∧ C07.transformAlloc_unconditional = true ∧
+    C07.mapperHelper_calls = 1 ∧ C07.mapperHelper_loopDepth = 1 ∧ C07.mapperHelper_unconditional = true := by decide
+
+/-- `renameQ`: replaceAndEraseResource gives up when `to` is empty or already present, and only then looks at `from`
+    (structural: variable names are part of the fact) -/
+theorem tie_rename_guards :
+    C07.replaceAndErase_guards =
+      ["if to == \"\"", "if resourceList[to];ok", "assign resourceList[from]", "if ok", "return"] := by decide
+
+/-- `cycFilter` / `cycReserve` / `cycPreFilter`: in Plugin.Filter the trial allocate sits under
+    `designatedAllocation != nil` and `allocationResult == nil`, is followed by the return on failure and then by
+    `state.allocationResult = nil`; Plugin.Reserve allocates under `allocationResult == nil`; Plugin.allocate stores its
+    result once; PreFilter drops the designation when the hint does not name the plugin (structural) -/
+theorem tie_cycle_result :
+    C07.filter_trial_block = ["allocate", "return-on-failure", "clear-result"] ∧
+    C07.filter_trial_conds = ["state.designatedAllocation != nil", "state.allocationResult == nil"] ∧
+    C07.reserve_allocate_conds = ["state.allocationResult == nil"] ∧
+    C07.reserve_allocate_block.contains "allocate" = true ∧
+    C07.reserve_allocate_block.contains "clear-result" = false ∧
+    C07.allocate_result_stores = 1 ∧
+    C07.prefilter_designation_cleared_when.head? = some "!hintForDevice" := by decide
+
 end KoordVerif.C07
